@@ -35,7 +35,8 @@ def corpus():
          'SpFWpK', 'SpFwpK',                      # wait after a failed call
          'SWwWKw',                                # several waiters
          'X', 'SX', 'SpX', 'gX', 'SgX', 'EX', 'SpFX', 'SWX', 'SpSX',   # shutdown at every stage
-         'cWuK', 'ScWupK', 'SpkWupK']             # foreign halves of _put around a wait
+         'cWuK', 'ScWupK', 'SpkWupK',             # foreign halves of _put around a wait
+         'SpBK', 'SpbK', 'SpBFpK', 'BK', 'bpK', 'SBK', 'gBeK', 'SpSBKK', 'SpBpKK']   # submit + wait() in the same task step
     return [c for c in (B.letters_case(T, w) for T in (8, 100) for w in W) if c]
 
 
@@ -46,10 +47,12 @@ def gen_exhaustive(tier, seed):
     out += B.word_cases('SLEagyfempKFWw', L - 1, tail=False, suffixes=('X',))
     out.append(B.letters_case(8, 'X'))
     out += B.foreign_cases(base_alpha='SgyepKFWw', maxlen=3 if tier == 'quick' else 4)
+    # submit-then-wait in one task step (no loop iteration in between) at every point of short programs
+    out += B.word_cases('SBbpKFW', L)
     return out
 
 
-PROFILE = dict(p_fail=0.3, p_foreign=0.02, p_wait=0.22, p_settle=0.65, p_shutdown=0.2, max_subs=8)
+PROFILE = dict(p_fail=0.3, p_foreign=0.02, p_wait=0.22, p_settle=0.65, p_shutdown=0.2, max_subs=8, waits='WWwwBb')
 
 
 def gen_random(tier, seed):
